@@ -1770,6 +1770,41 @@ def _is_resolution(ctx: Ctx, f: FuncInfo, call: ast.AST) -> bool:
     return q in _resolver_funcs(ctx)
 
 
+def _record_resolvers(ctx: Ctx) -> Set[str]:
+    """Package functions that hand back a record / tuple every component of which is 'None, or what a resolver returned'."""
+    def build():
+        out: Set[str] = set()
+        for f in ctx.funcs():
+            rets = [n for n in iter_own_nodes(f.node) if isinstance(n, ast.Return) and n.value is not None]
+            if not rets:
+                continue
+
+            def comp_ok(e: ast.AST, depth: int = 0) -> bool:
+                if isinstance(e, ast.Constant) and e.value is None:
+                    return True
+                if isinstance(e, ast.IfExp):
+                    return comp_ok(e.body, depth) and comp_ok(e.orelse, depth)
+                if _is_resolution(ctx, f, e):
+                    return True
+                if isinstance(e, ast.Name) and depth < 2:
+                    asg = [x for x in iter_own_nodes(f.node) if isinstance(x, ast.Assign) and dotted(x.targets[0]) == e.id]
+                    return bool(asg) and all(comp_ok(x.value, depth + 1) for x in asg)
+                return False
+            good = True
+            for rt in rets:
+                v = rt.value
+                comps = list(v.elts) if isinstance(v, ast.Tuple) else (list(v.args) + [k.value for k in v.keywords]
+                                                                        if isinstance(v, ast.Call) and isinstance(v.func, ast.Name)
+                                                                        and v.func.id[:1].isupper() or (isinstance(v, ast.Call) and isinstance(v.func, ast.Name) and v.func.id.startswith("_")) else None)
+                if not comps or not all(comp_ok(c) for c in comps) or not any(not (isinstance(c, ast.Constant)) for c in comps):
+                    good = False
+                    break
+            if good:
+                out.add(f.qualname)
+        return out
+    return ctx.memo("gt.record_resolvers", build)
+
+
 def gt_aliasnorm(ctx: Ctx) -> RuleResult:
     """Every user-supplied selection list (aliases: node, tag or id) is resolved to ids before it reaches make_subgraph."""
     from .sib import PARALLEL
@@ -1787,7 +1822,7 @@ def gt_aliasnorm(ctx: Ctx) -> RuleResult:
                 continue
             for p in PARALLEL:
                 a = arg_for_param(ms.node, call, p, skip_self=True)
-                if a is None:
+                if a is None or (isinstance(a, ast.Constant) and a.value is None):
                     continue
                 d = dotted(a)
                 if d is None:
@@ -1800,6 +1835,23 @@ def gt_aliasnorm(ctx: Ctx) -> RuleResult:
                             and isinstance(x.value, ast.Attribute) and x.value.attr in ("setup_nodes", "debug_nodes", "root_nodes", "leaf_nodes")]
                 n += 1
                 ok = bool(norm)
+                if not ok:
+                    # the argument is a plain copy of a name / field that was resolved (a record field, an explaining variable)
+                    def _resolved_copy(name: str, depth: int = 0) -> bool:
+                        asg = [x for x in iter_own_nodes(f.node) if isinstance(x, ast.Assign) and dotted(x.targets[0]) == name]
+                        if any(_is_resolution(ctx, f, x.value) for x in asg):
+                            return True
+                        srcs = [dotted(x.value) for x in asg]
+                        return depth < 3 and bool(asg) and all(s_ is not None and s_ != name and _resolved_copy(s_, depth + 1) for s_ in srcs)
+                    ok = _resolved_copy(d)
+                    if not ok and "." in d:
+                        # a field of a record that a helper filled with resolved ids (or None) only
+                        base_ = d.rsplit(".", 1)[0]
+                        asg_ = [x for x in iter_own_nodes(f.node) if isinstance(x, ast.Assign) and dotted(x.targets[0]) == base_]
+                        ok = bool(asg_) and all(isinstance(x.value, ast.Call) and next((q_ for c_, q_ in ctx.calls_in(f) if c_ is x.value), None)
+                                                in _record_resolvers(ctx) for x in asg_)
+                    if ok:
+                        norm = [x for x in iter_own_nodes(f.node) if isinstance(x, ast.Assign) and dotted(x.targets[0]) == d]
                 r.ob(ok, {"call": norm_src(call)[:80], "in": f.short, "selection": p, "argument": d,
                           "resolved by": norm_src(norm[0]) if norm else None})
                 if not ok:
@@ -1931,8 +1983,17 @@ def gt_defaultsel(ctx: Ctx) -> RuleResult:
                 if not isinstance(a, ast.Name):
                     continue
                 n += 1
+                def _on_graph(e: ast.AST) -> bool:
+                    # the attribute is read from a graph (self.graph_ids.setup_nodes), not from the object's own selection field
+                    if dotted(e) == "self":
+                        return False
+                    try:
+                        t_ = ctx.type_of(f, e)
+                    except Exception:
+                        return True
+                    return not t_ or t_[0] != "inst" or ctx.T.is_instance(t_, g.qualname)
                 synth = [d for d in ctx.reaching_defs(f, a.id, call) if isinstance(d, ast.Assign) and isinstance(d.value, ast.Attribute)
-                         and d.value.attr in graph_attrs and d.value.attr.endswith("_nodes")]
+                         and d.value.attr in graph_attrs and d.value.attr.endswith("_nodes") and _on_graph(d.value.value)]
                 bad = bool(synth) and bool(others(p))
                 r.ob(not bad, {"call": norm_src(call)[:70], "in": f.short, "selection": p,
                                "synthesised default": norm_src(synth[0]) if synth else None})
